@@ -13,4 +13,6 @@ class Parameter(ASTNode):
         return '\t' * level + f'Parameter({repr(self.value)})'
 
     def get_string(self, *args, **kwargs):
+        if self.value == '?':
+            return '?'
         return ':' + str(self.value)
